@@ -50,6 +50,9 @@ func (j *Journal) Hit(op, target string) bool {
 }
 
 func (j *Journal) Add(c Call) {
+	if c.R == nil {
+		c.R = [][]int{}
+	}
 	j.mu.Lock()
 	defer j.mu.Unlock()
 	j.Calls = append(j.Calls, c)
@@ -219,6 +222,26 @@ func (s *SimAWS) TerminateInstanceInAutoScalingGroup(in *autoscaling.TerminateIn
 	return &autoscaling.TerminateInstanceInAutoScalingGroupOutput{Activity: &autoscaling.Activity{Description: aws.String("terminating " + id)}}, nil
 }
 
+// idRuns encodes fleet instance ids "f<k>" as maximal consecutive runs, in call order (at most 64 runs).
+func idRuns(ids []*string) [][]int {
+	runs := [][]int{}
+	for _, p := range ids {
+		k, err := strconv.Atoi(strings.TrimPrefix(aws.StringValue(p), "f"))
+		if err != nil {
+			k = -1
+		}
+		if n := len(runs); n > 0 && runs[n-1][1]+1 == k {
+			runs[n-1][1] = k
+			continue
+		}
+		if len(runs) >= 64 {
+			break
+		}
+		runs = append(runs, []int{k, k})
+	}
+	return runs
+}
+
 // idRange describes a list of fleet instance ids "f<k>": lo, hi and whether they are consecutive.
 func idRange(ids []*string) (lo, hi int, contig bool, desc string) {
 	if len(ids) == 0 {
@@ -257,7 +280,7 @@ func (s *SimAWS) AttachInstances(in *autoscaling.AttachInstancesInput) (*autosca
 	defer s.mu.Unlock()
 	a, ok := s.Asgs[aws.StringValue(in.AutoScalingGroupName)]
 	lo, hi, contig, desc := idRange(in.InstanceIds)
-	c := Call{Op: "attach", A: lo, B: hi, N: strconv.Itoa(len(in.InstanceIds))}
+	c := Call{Op: "attach", A: lo, B: hi, N: strconv.Itoa(len(in.InstanceIds)), R: idRuns(in.InstanceIds)}
 	if !contig {
 		c.S = "noncontig:" + desc
 	}
@@ -365,8 +388,9 @@ func (e *SimEC2) CreateFleet(in *ec2.CreateFleetInput) (*ec2.CreateFleetOutput, 
 			tmpl = aws.StringValue(cfg.LaunchTemplateSpecification.LaunchTemplateId) + "@" + aws.StringValue(cfg.LaunchTemplateSpecification.Version)
 		}
 	}
-	desc := fmt.Sprintf("%s|%s|single=%v|overrides=%d|mixed=%v|tmpl=%s|tags=%d", lifecycle, aws.StringValue(in.Type), single, nOver, both, tmpl, len(in.TagSpecifications))
-	c := Call{Op: "create_fleet", G: g, A: int(total), B: int(minT), S: desc}
+	// S = lifecycle; R = [[single instance type, type instant], [number of overrides, options of the wrong kind], [tag specs, template given]]
+	c := Call{Op: "create_fleet", G: g, A: int(total), B: int(minT), S: lifecycle,
+		R: [][]int{{b2i(single), b2i(aws.StringValue(in.Type) == "instant" && !aws.BoolValue(in.TerminateInstancesWithExpiration))}, {nOver, b2i(both)}, {len(in.TagSpecifications), b2i(tmpl == "lt-1@7" || tmpl == "lt-1@1")}}}
 	if fail {
 		s.J.Add(c)
 		return nil, fmt.Errorf("injected: CreateFleet failed")
@@ -437,7 +461,7 @@ func (e *SimEC2) TerminateInstances(in *ec2.TerminateInstancesInput) (*ec2.Termi
 	g := s.J.CurG()
 	fail := s.J.Hit("terminate_instances", g)
 	lo, hi, contig, desc := idRange(in.InstanceIds)
-	c := Call{Op: "terminate_instances", G: g, A: lo, B: hi, N: strconv.Itoa(len(in.InstanceIds))}
+	c := Call{Op: "terminate_instances", G: g, A: lo, B: hi, N: strconv.Itoa(len(in.InstanceIds)), R: idRuns(in.InstanceIds)}
 	if !contig {
 		c.S = "noncontig:" + desc
 	}
